@@ -527,3 +527,8 @@ def _seeded(ct, tier, seed):
 
 
 contract('C15.runtime.seeded', [TP + ':DistributionSampler.__init__', TP + ':DistributionSampler.sample'], ['C15'], custom=_seeded)(lambda c: None)
+
+
+# concrete inputs found by the defect-hunting sub-agents (bounded replay, see contracts/hunt.py)
+from . import hunt as _hunt  # noqa: E402
+_hunt.register('C15')
